@@ -18,16 +18,22 @@ PROP = 'C13'
 PROP_FILE = 'Props/C13.v'
 THEOREMS = ['C13_each_item_each_task_at_most_once', 'C13_tasks_in_order', 'C13_only_source_items',
             'C13_stop_takes_no_more', 'C13_no_bad_stuck', 'C13_exactly_once_without_stop',
+            'C13_returns_when_source_exhausted', 'C13_source_error_surfaces',
             'C13_every_execution_finite']
 TRUSTED = [
     'hand-written LTS Model/Pipeline.v of wpull/pipeline/pipeline.py (one transition = one coroutine segment between two '
     'asyncio suspension points), tied by the lockstep replay of this run',
     'small concrete models of asyncio 3.12 PriorityQueue getters, Condition.notify_all, Event, asyncio.wait, Task.cancel inside that model',
     'harness/fakes/schedloop.py (scripted event loop: non-task callbacks run eagerly) and the instrumented source/tasks of harness/impl/c13_impl.py',
+    'vm_compute (the replay of every observed run is evaluated inside Coq)',
 ]
 ASSUMPTIONS = [
     'process() is called once on a fresh Pipeline; items are truthy and distinct (the source never yields the same object twice)',
-    'the environment eventually answers: every started task completes or raises, the source answers every get_item(), a paused running pipeline is eventually unpaused',
+    'C13_no_bad_stuck / C13_every_execution_finite are about the model\'s fairness-free notion: "nothing runnable and the environment owes nothing" '
+    '(every started task completes or raises, the source answers every get_item(), a paused running pipeline is eventually unpaused)',
+    'C13_returns_when_source_exhausted assumes an honest source (None only when it has nothing left); for growing sources (the URL table) the '
+    'property-only runs of the correspondence check it on the implementation',
+    'C13_every_execution_finite: the bound holds between two concurrency changes (concurrency := k may raise the potential)',
     'no real timers, signals or threads: stop() and the concurrency setter run between two coroutine steps (as asyncio signal handlers do)',
 ]
 
@@ -55,6 +61,17 @@ def _random_cases(r, count, big):
     return cases
 
 
+def _table_cases(r, count):
+    """property-only runs with a synchronous, growing source (and partly synchronous tasks)"""
+    cases = []
+    for _ in range(count):
+        cases.append({'mode': 'table', 'n': r.choice([1, 2, 3, 4, 6, 8]), 't': r.choice([1, 1, 2, 3]), 'c': r.choice([1, 1, 2, 3]),
+                      'choices': None, 'seed': r.randrange(1 << 30), 'stops': r.choice([0, 0, 0, 1]), 'raises': r.choice([0, 0, 0, 1]),
+                      'srcraises': 0, 'nones': 0, 'concs': [0, 1, 2, 3], 'conc_budget': r.choice([0, 0, 0, 2]),
+                      'fanout': r.choice([1, 2, 3]), 'sync_tasks': r.choice([0, 0, 30, 100]), 'max_steps': 600})
+    return cases
+
+
 def _enum_jobs(thorough):
     """exhaustive schedule enumeration: every choice sequence of the run tree."""
     jobs = []
@@ -73,7 +90,7 @@ def _enum_jobs(thorough):
         case = {'n': j['n'], 't': j['t'], 'c': j['c'], 'stops': 1 if j['inj'] == 'stop' else 0,
                 'raises': 1 if j['inj'] == 'raise' else 0, 'srcraises': 1 if j['inj'] == 'srcraise' else 0,
                 'nones': 1 if j['inj'] == 'none' else 0, 'concs': [], 'conc_budget': 0, 'max_steps': 400}
-        out.append({'enumerate': case, 'max_runs': 60000 if thorough else 1500})
+        out.append({'enumerate': case, 'max_runs': 10000 if thorough else 1500})
     return out
 
 
@@ -134,6 +151,8 @@ def property_on_impl(case, res):
     if term in ('stuck', 'busyloop', 'nonterminating'):
         return 'hang'
     if term == 'returned' and not stopped:
+        if case.get('mode') == 'table' and res.get('pool_left', 0) > 0:
+            return 'returned-before-source-exhausted'
         for item in yielded:
             for k in range(t):
                 if (item, k) not in ended:
@@ -249,6 +268,16 @@ def correspondence(ctx):
     cases, results, enum_info = _run_impl(cases, _enum_jobs(ctx.thorough))
     total = len(cases)
     violations = _violations(cases, results)
+    # property-only stream: synchronous growing source / synchronous tasks (not replayed by the model)
+    tcases = _table_cases(r, 600 if not ctx.thorough else 12000)
+    tcases, tresults, _ = _run_impl(tcases)
+    violations += _violations(tcases, tresults)
+    tdist = {'runs': len(tcases), 'terminal': {}, 'with_sync_tasks': sum(1 for c in tcases if c['sync_tasks'] > 0),
+             'with_effective_stop': sum(1 for x in tresults if x['effective_stops'] > 0),
+             'all_created_items_processed': sum(1 for c, x in zip(tcases, tresults)
+                                                if x['terminal'] == 'returned' and x['pool_left'] == 0 and x['created'] == c['n'])}
+    for x in tresults:
+        tdist['terminal'][x['terminal']] = tdist['terminal'].get(x['terminal'], 0) + 1
     cases, results = _dedup(cases, results)
     disagreements = _model_side(cases, results)
     dist = {'terminal': {}, 'n': {}, 't': {}, 'c': {}, 'with_effective_stop': 0, 'with_task_exception': 0,
@@ -262,6 +291,7 @@ def correspondence(ctx):
         actors = {e[1] for e in res['trace'] if e[0] == 'run'}
         stop = any(e[1] == 'stop' and len(e) > 3 for e in envs)
         dist['with_effective_stop'] += stop
+        dist['stop_while_producer_parked_or_paused'] += any(e[1] == 'stop' and ('producer-parked' in e or 'paused' in e) for e in envs)
         dist['with_task_exception'] += any(e[1] == 'raise' for e in envs)
         dist['with_source_exception'] += any(e[1] == 'srcraise' for e in envs)
         dist['with_pause'] += any(e[1] == 'conc' and e[2] == 0 for e in envs)
@@ -281,6 +311,7 @@ def correspondence(ctx):
         'samples': [{'case': {k: cases[i][k] for k in ('n', 't', 'c')}, 'terminal': results[i]['terminal'],
                      'trace_head': results[i]['trace'][:6]} for i in (0, len(cases) // 2, len(cases) - 1)] if cases else [],
         'input_distribution': dist,
+        'property_only_runs': tdist,
         'exhaustive': enum_info,
         'disagreements': disagreements,
         'impl_violations': violations,
@@ -295,7 +326,8 @@ def search(ctx, disagreements):
     for j in jobs:
         j['max_runs'] = 20000
     cases, results, _ = _run_impl(cases, jobs)
-    return _violations(cases, results)
+    tcases, tresults, _ = _run_impl(_table_cases(r, 6000))
+    return _violations(cases, results) + _violations(tcases, tresults)
 
 
 def replay(ctx, data):
@@ -304,16 +336,22 @@ def replay(ctx, data):
     return property_on_impl(case, results[0]) is not None
 
 
-LEVEL_TEXT = ('Coq theorems over the LTS Model/Pipeline.v, by induction over reachable states, for every item count, task count, initial '
-              'concurrency and every interleaving of coroutine steps with environment actions (task completes/raises, source yields '
-              'item/None/raises, stop(), concurrency := k incl. 0): each (item, task) starts at most once, tasks of an item run in order, '
-              'only items the source yielded are processed, after stop() no new item is started, a state in which nothing is runnable and '
-              'the environment owes nothing has process() returned or raised (no hang), and without stop every yielded item is processed '
-              'exactly once when process() returns. The model is hand-written for the code after three fix: commits and tied to the real '
-              'class on every run by a lockstep replay of scripted-event-loop runs inside Coq (ready sets, emitted events, terminal outcome).')
+LEVEL_TEXT = ('Coq theorems over the LTS Model/Pipeline.v, each by induction over ALL reachable states (any item count n, task count t, concurrency c, '
+              'any interleaving of coroutine steps with the environment actions task completes/raises, source yields item/None/raises, stop(), '
+              'concurrency := k incl. 0), all closed under the global context: (1) the log has no duplicate (start|end, item, task) event; (2) only '
+              'tasks 0..t-1 run, task k+1 of an item starts after its task k ended, an end follows its start; (3) only items the source yielded are '
+              'processed; (4) once the pipeline has left `running` (stop(), producer finished or raised) no further item is started; (5) no hang: a state '
+              'in which no coroutine can step and the environment owes nothing has process() returned or raised - incl. stop() with the producer parked '
+              'in put_item (F26), stop() while paused (F31), concurrency changes, task and source exceptions; (6) without stop a returned process() has '
+              'run every yielded item through every task (with (1): exactly once), and with an honest source all n items; a source exception makes a finished process() raise; (7) an explicit potential is '
+              'strictly decreased by every coroutine step and every environment answer and never increased by stop(): no infinite execution between two '
+              'concurrency changes, with a computable bound on the number of steps. The model is hand-written for the code after the three round-1 fix: '
+              'commits and tied to the real class on every run by a lockstep replay inside Coq of scripted-event-loop runs (ready sets, emitted events, '
+              'terminal outcome); synchronous/growing sources and synchronous tasks are exercised by property-only runs of the real class.')
 LEVEL_NOTE = ('Trusted: Coq kernel + vm_compute; the hand-written LTS including its small models of asyncio 3.12 primitives; the scripted event loop '
               '(real SelectorEventLoop with our _run_once; asyncio.wait callback plumbing run eagerly); the environment is assumed to answer '
               'eventually. Runtime behaviour the model cannot exhibit: real timers, signal delivery timing, thread-pool callbacks, a second '
               'concurrent process() call. The implementation is sampled under controlled schedules (exhaustive only for the small configurations '
-              'listed in the evidence); the theorems cover all schedules of the model.')
-TECHNIQUE = 'Coq LTS with invariants by induction over reachable states; lockstep trace replay of the real class on a scripted asyncio loop (vm_compute)'
+              'listed in the evidence); the theorems cover all schedules of the model. Modelled, not verified: asyncio itself; that source/tasks '
+              'behave as environment actions (a call into them is treated as always suspending, which only adds interleavings).')
+TECHNIQUE = 'Coq LTS with invariants by induction over reachable states and a termination potential; lockstep trace replay of the real class on a scripted asyncio loop (vm_compute)'
